@@ -15,6 +15,7 @@ import (
 	"fmt"
 	"math/big"
 	"math/rand"
+	"reflect"
 	"strings"
 	"testing"
 
@@ -862,6 +863,10 @@ func (r *run) monitor(k *kind, what string, a claim, ha, va, la string, b claim)
 		if ha == hb && k.effect(a) != k.effect(b) {
 			r.reported[ha] = true
 			desc := fmt.Sprintf("%s: valid claims differing only in %s share a ClaimHash", k.name, what)
+			if interpreted(k, a) != interpreted(k, b) {
+				// not merely two spellings of one value: the handlers act differently on the two claims
+				desc += "; the handlers interpret the two differently"
+			}
 			if r.nViol[desc] == 0 {
 				r.found = append(r.found, collision{k, what, k.clone(a), k.clone(b)})
 			}
@@ -870,6 +875,22 @@ func (r *run) monitor(k *kind, what string, a claim, ha, va, la string, b claim)
 		}
 	}
 	return lb, hb, vb
+}
+
+// interpreted: the effect-relevant fields as the handlers read them — hex text decoded (letter case of hex digits is
+// immaterial), the SendToFx target parsed by fxtypes.ParseFxTarget as SendToFxExecuted does
+func interpreted(k *kind, c claim) string {
+	cp := k.clone(c)
+	v := elem(cp)
+	for _, name := range []string{"Data", "Memo", "Cause", "ChannelIbc"} {
+		if f := v.FieldByName(name); f.IsValid() && f.Kind() == reflect.String {
+			f.SetString(strings.ToLower(f.String()))
+		}
+	}
+	if f := v.FieldByName("TargetIbc"); f.IsValid() {
+		f.SetString(fmt.Sprintf("%+v", fxtypes.ParseFxTarget(f.String(), true)))
+	}
+	return k.effect(cp)
 }
 
 // recorded witnesses (lean/FxVerif/Props/C03.lean `legacy_*_not_injective`) and fixed adversarial pairs
